@@ -768,6 +768,27 @@ func main() {
 				}
 				continue
 			}
+			if in.Kind == "batch" {
+				bd := bDesc{Close: -1}
+				if err := json.Unmarshal(in.Desc, &bd); err == nil {
+					runBatch(o, bd, "replay")
+				}
+				continue
+			}
+			if in.Kind == "hh" {
+				var hd hhDesc
+				if err := json.Unmarshal(in.Desc, &hd); err == nil {
+					runHH(o, hd, "replay")
+				}
+				continue
+			}
+			if in.Kind == "remote" {
+				var rd remoteDesc
+				if err := json.Unmarshal(in.Desc, &rd); err == nil {
+					runRemote(o, rd, "replay")
+				}
+				continue
+			}
 			var d desc
 			if err := json.Unmarshal(in.Desc, &d); err != nil {
 				continue
@@ -795,6 +816,11 @@ func main() {
 			}
 		}
 	}
+	// the real hh.Service behind the points writer; the real ShardWriter against a scripted node
+	genHH(o, hx.NewRand(f.Seed^0xc0311), f.N/25+20)
+	genRemote(o, hx.NewRand(f.Seed^0xc0322), f.N/200+6)
+	// batches over several shards
+	genBatches(o, hx.NewRand(f.Seed^0xc0333), f.N/4, f.Tier == "thorough")
 	// exhaustive over the named scenarios
 	exhaustive(o, 1, []int{2, 1}, false)
 	exhaustive(o, 2, []int{3, 1, 2}, false)
